@@ -493,7 +493,7 @@ func (e *Engine) runPath(fn *ssa.Function, trail []decision, hr *HarnessRun, ses
 					// the same codec confusion as an explicit decoder mismatch (see codecConfusion)
 					if e, ok := r.(error); ok && strings.Contains(e.Error(), "is main.VBlob, not main.VSlice") {
 						end = "codec-confusion"
-						p.obligation("INV.stored-value-read-with-the-codec-that-wrote-it:"+p.where(), "codec-confusion", "a codec.Marshal'ed value was consumed as raw bytes", tFalse)
+						p.obligation("INV.stored-value-read-with-the-codec-that-wrote-it:"+p.crashSite, "codec-confusion", "a codec.Marshal'ed value was consumed as raw bytes", tFalse)
 						break
 					}
 					end = "engine-crash"
